@@ -20,7 +20,7 @@ var c15Kinds = []string{"help-map-default", "man-page", "ini-write-maps", "ini-s
 func c15Decl(r *Rand, kind string) *Decl {
 	cfg := &DeclCfg{
 		MaxDepth: 2, MaxFan: 3, PCmds: 60, Types: []TypeSpec{{K: KString}, {K: KBool}, {K: KInt}, {K: KString, W: WSlice}, {K: KString, W: WMap, MapKey: KString}, {K: KInt, W: WMap, MapKey: KString}, {K: KString, W: WMap, MapKey: KInt}, {K: KFloat64, W: WMap, MapKey: KString}},
-		OptsMin: 2, OptsMax: 5, SubGroupsMax: 1, NestMax: 2, PNamespace: 30, PShortOnly: 10, PLongOnly: 30, PDefault: 20, PChoices: 15, PDesc: 90, PValueName: 20,
+		OptsMin: 2, OptsMax: 5, SubGroupsMax: 1, PInline: 20, NestMax: 2, PNamespace: 30, PShortOnly: 10, PLongOnly: 30, PDefault: 20, PChoices: 15, PDesc: 90, PValueName: 20,
 		PExec: 30, PByTag: 50, PSubOptional: 50, PAliases: 40, PHidden: 5, PEnv: 0, PIniName: 10, PRequired: 0,
 		ParserOpts: []flags.Options{flags.HelpFlag | flags.PassDoubleDash}, NoHelpNames: true,
 	}
